@@ -327,6 +327,41 @@ def PairPos1.lookup {V : Type} (t : PairPos1 V) (g1 g2 : Nat) : Option V :=
 def firstMatch {V : Type} (ts : List (PairPos1 V)) (g1 g2 : Nat) : Option V :=
   ts.findSome? (fun t => t.lookup g1 g2)
 
+/-! ## `PairPosBuilder`: glyph pairs (`tables/gpos/builders.rs`: `insert_pair`,
+`GlyphPairPosBuilder::build`) at the rule level; `V` = the (opaque) pair of value records -/
+
+/-- `GlyphPairPosBuilder(BTreeMap<g1, BTreeMap<g2, (record1, record2)>>)` as an association list
+in insertion order -/
+abbrev GlyphPairs (V : Type) := List ((Nat × Nat) × V)
+
+/-- `PairPosBuilder::insert_pair`: `.entry(glyph1).or_default().entry(glyph2).or_insert((record1,
+record2))` — the FIRST rule for a glyph pair is kept ("later conflicting rules are skipped"),
+whatever its value -/
+def GlyphPairs.insertPair {V : Type} (b : GlyphPairs V) (g1 g2 : Nat) (v : V) : GlyphPairs V :=
+  if b.any (fun e => e.1.1 == g1 && e.1.2 == g2) then b else b ++ [((g1, g2), v)]
+
+/-- a sequence of `insert_pair` calls on an empty builder -/
+def GlyphPairs.ofRules {V : Type} (rules : List ((Nat × Nat) × V)) : GlyphPairs V :=
+  rules.foldl (fun b r => b.insertPair r.1.1 r.1.2 r.2) []
+
+/-- the `Vec<PairValueRecord>` of first glyph `g` within one value-format group: the group's
+records for `g` in second-glyph order (iteration order of the inner `BTreeMap`) -/
+def pairSetOf {V : Type} (es : GlyphPairs V) (g : Nat) : List (Nat × V) :=
+  ((es.filter (fun e => e.1.1 == g)).mergeSort (fun a c => decide (a.1.2 ≤ c.1.2))).map
+    (fun e => (e.1.2, e.2))
+
+/-- the PairPos format 1 subtable of one value-format key `f`: coverage collected from the first
+glyphs of the key's pairs (`CoverageTableBuilder`), one pair set per first glyph in glyph order -/
+def glyphPairGroup {V : Type} (fmt : V → Nat) (b : GlyphPairs V) (f : Nat) : PairPos1 V :=
+  let es := b.filter (fun e => fmt e.2 == f)
+  ⟨buildCoverage (es.map (·.1.1)), (sortDedup (es.map (·.1.1))).map (pairSetOf es)⟩
+
+/-- `GlyphPairPosBuilder::build`: EVERY pair is pushed into `split_by_format[(v1.format(),
+v2.format())][g1]` (`fmt` = the format key; no pair is dropped, also not an all-zero one); one
+subtable per key in key order -/
+def buildGlyphPairs {V : Type} (fmt : V → Nat) (b : GlyphPairs V) : List (PairPos1 V) :=
+  (sortDedup (b.map (fun e => fmt e.2))).map (glyphPairGroup fmt b)
+
 /-- `split_off_ppf1(graph, subtable, start, end)` -/
 def splitOffPpf1 {V : Type} (t : PairPos1 V) (start end_ : Nat) : Option (PairPos1 V) :=
   if end_ < start then none else
